@@ -91,7 +91,12 @@ pub fn gen(rng: &mut Rng, n: usize, sink: &mut Sink, focus: &str) {
         if !out.starts_with("ok") {
             continue;
         }
-        sink.exec(&format!("acct {} 5000 -", hex::encode(&gaddr)));
+        // the contract's own funds: modest, or (one run in three) far beyond 2^64 so that any value can be paid
+        if rng.chance(1, 3) {
+            sink.exec(&format!("acct {} 1000000000000000000000000 -", hex::encode(&gaddr)));
+        } else {
+            sink.exec(&format!("acct {} 5000 -", hex::encode(&gaddr)));
+        }
         let mut now = gw.now;
         let mut g = Gov { addr: gaddr.clone(), gw, next_msg: 0 };
         // proposal pool
@@ -145,6 +150,12 @@ pub fn gen(rng: &mut Rng, n: usize, sink: &mut Sink, focus: &str) {
                     sink.exec(&format!("deliver {} fail", id));
                     sink.exec(&format!("cb {}", id));
                     sink.exec(&format!("query {} getRefundToken {}", hex::encode(&gaddr), args(&[u.clone(), token_arg("EGLD", 0)])));
+                    if rng.chance(1, 2) {
+                        // "EGLD with a nonce" is another asset: nothing was credited under it, nothing is paid, the real credit stays
+                        sink.exec(&format!("tx {} {} withdrawRefundToken 0 - {}", hex::encode(&u), hex::encode(&gaddr), args(&[token_arg("EGLD", 7)])));
+                        sink.exec(&format!("bal {} EGLD", hex::encode(&u)));
+                        sink.exec(&format!("query {} getRefundToken {}", hex::encode(&gaddr), args(&[u.clone(), token_arg("EGLD", 0)])));
+                    }
                     g.command(rng, sink, &execute_payload(0, &pb, now), true, GOV_CHAIN, GOV_ADDR, &user(1), None);
                     let out = sink.exec(&format!("tx {} {} executeProposal 0 - {}", hex::encode(user(3)), hex::encode(&gaddr), args(&[pb.target.clone(), pb.call_data.clone(), nat(pb.value)])));
                     if out.starts_with("ok") && !out.ends_with("pend=-") {
@@ -318,6 +329,26 @@ pub fn gen(rng: &mut Rng, n: usize, sink: &mut Sink, focus: &str) {
                         }
                     }
                 }
+                if rng.chance(1, 8) {
+                    // the same target and call data with ANOTHER value that a sloppy hash preimage could confuse with the
+                    // scheduled / approved one: shifted by whole bytes, beyond 64 bits, or the zero-value twin
+                    let two64: u128 = 1u128 << 64;
+                    let mut alts: Vec<u128> = vec![p.value + two64, p.value + two64 + 5];
+                    if p.value > 0 {
+                        alts.push(p.value * 256);
+                        alts.push(p.value * 65536);
+                        if p.value % 256 == 0 { alts.push(p.value / 256); }
+                    } else {
+                        alts.push(two64);
+                        alts.push(two64 * 256);
+                    }
+                    let v2 = *rng.pick(&alts);
+                    let out = sink.exec(&format!("tx {} {} {} 0 - {}", hex::encode(&caller), hex::encode(&gaddr), func, args(&[p.target.clone(), p.call_data.clone(), nat(v2)])));
+                    if out.starts_with("ok") && !out.ends_with("pend=-") {
+                        pend.push((next_pend, k, false));
+                        next_pend += 1;
+                    }
+                }
                 let out = sink.exec(&format!(
                     "tx {} {} {} {} {} {}",
                     hex::encode(&caller),
@@ -380,7 +411,8 @@ pub fn gen(rng: &mut Rng, n: usize, sink: &mut Sink, focus: &str) {
                         // withdraw a refund credit
                         let u = user(rng.below(6) as u8);
                         let tok = *rng.pick(&["EGLD", TOKENS[0], TOKENS[1], SFT, SFT]);
-                        let nonce = if tok == SFT { *rng.pick(&[5u64, 6, 0]) } else { 0 };
+                        // (a nonce on EGLD or on a fungible token names a different, never credited, asset)
+                        let nonce = if tok == SFT { *rng.pick(&[5u64, 6, 0]) } else if rng.chance(1, 5) { *rng.pick(&[7u64, 1]) } else { 0 };
                         sink.exec(&format!("tx {} {} withdrawRefundToken 0 - {}", hex::encode(&u), hex::encode(&gaddr), args(&[token_arg(tok, nonce)])));
                     }
                     2 => {
